@@ -16,6 +16,9 @@
 (* Phase B lines (ref, cut): the inter-node stream of a forwarded backup cut after `pos` bytes;  *)
 (* Backup!CutIsError: a response with status 200, read to its end without error, whose body is   *)
 (* not the complete backup, is a short file reported as success.                                  *)
+(* Phase P lines (pf): the producing node failed after streaming began (fault point fired at     *)
+(* the k-th arrival); Backup!FailedIsErrorP: such a request must not be answered as a backup     *)
+(* (status 200 and a body that ends without a transport error).                                  *)
 (* Every failed rule is recorded as <<line, name>> and printed by the postcondition.             *)
 EXTENDS Backup, Json
 
@@ -72,7 +75,12 @@ TCut == /\ Is("cut") /\ Step
         /\ bad' = Flag(bad, Ev.fired => ~(Ev.status = 200 /\ Ev.clean /\ ~Ev.equal), "short-success")
         /\ UNCHANGED <<first, nst, vars>>
 
-TNext == TReset \/ TInitState \/ TWrite \/ TBackup \/ TRef \/ TCut
+(* the production of a backup failed after streaming began: the answer must not be a backup *)
+TProducerFail == /\ Is("pf") /\ Step
+                 /\ bad' = Flag(bad, FailedIsErrorP(Ev.fired, Ev.status, Ev.clean), "success-although-producer-failed")
+                 /\ UNCHANGED <<first, nst, vars>>
+
+TNext == TReset \/ TInitState \/ TWrite \/ TBackup \/ TRef \/ TCut \/ TProducerFail
 TSpec == TInit /\ [][TNext]_tvars
 
 HW == /\ TLCSet(1, IF l > TLCGet(1) THEN l ELSE TLCGet(1))
